@@ -274,14 +274,29 @@ pub fn count_run<K: KeyT, V: ValT>(h: &MapHarness<K, V>, hist: &[MapOp], op: &Ma
     Ok(counts)
 }
 
+/// A harness whose operations can be run with one injected callback panic.
+pub trait FaultHarness: crate::explore::Harness {
+    /// element flavour, for the report
+    fn flavour(&self) -> &'static str;
+    /// callback invocations per class of `op` in the state reached by `hist`
+    fn count_run(&self, hist: &[Self::Op], op: &Self::Op) -> Result<[u32; NCLASS], String>;
+    /// one faulted execution; Ok(fired) or Err(violation)
+    fn one_fault(&self, hist: &[Self::Op], op: &Self::Op, class: Class, k: u32, fs: Option<&FaultStats>) -> Result<bool, String>;
+}
+impl<K: KeyT, V: ValT> FaultHarness for MapHarness<K, V> {
+    fn flavour(&self) -> &'static str {
+        K::NAME
+    }
+    fn count_run(&self, hist: &[MapOp], op: &MapOp) -> Result<[u32; NCLASS], String> {
+        count_run(self, hist, op)
+    }
+    fn one_fault(&self, hist: &[MapOp], op: &MapOp, class: Class, k: u32, fs: Option<&FaultStats>) -> Result<bool, String> {
+        one_fault(self, hist, op, class, k, fs)
+    }
+}
+
 /// Enumerate all single faults over all states of `out`.
-pub fn enumerate<K: KeyT, V: ValT>(
-    label: &str,
-    h: &MapHarness<K, V>,
-    out: &Outcome<MapOp>,
-    max_states: usize,
-    wall_cap: f64,
-) -> ConfigReport {
+pub fn enumerate<H: FaultHarness>(label: &str, h: &H, out: &Outcome<H::Op>, max_states: usize, wall_cap: f64) -> ConfigReport {
     let t0 = Instant::now();
     let fs = FaultStats::default();
     let next = AtomicUsize::new(0);
@@ -316,7 +331,7 @@ pub fn enumerate<K: KeyT, V: ValT>(
                         match env::catch(|| {
                             let sut = explore::replay(h, &hist, &stats).expect("replay");
                             let ops = crate::explore::Harness::ops(h, &sut);
-                            sut.finish().ok();
+                            crate::explore::Harness::finish(h, sut).ok();
                             ops
                         }) {
                             Ok(o) => o,
@@ -329,7 +344,7 @@ pub fn enumerate<K: KeyT, V: ValT>(
                     };
                     'ops: for op in &ops {
                         crate::crumbs::set_replay(&json!({"history": hist, "op": op}).to_string());
-                        let counts = match count_run(h, &hist, op) {
+                        let counts = match h.count_run(&hist, op) {
                             Ok(c) => c,
                             Err(m) => {
                                 let mut v = viol.lock().unwrap();
@@ -346,7 +361,7 @@ pub fn enumerate<K: KeyT, V: ValT>(
                                 let rp = json!({"history": hist, "op": op, "fault": [class, k]});
                                 crate::crumbs::set_replay(&rp.to_string());
                                 fs.runs.fetch_add(1, Ordering::Relaxed);
-                                let r = env::catch(|| one_fault(h, &hist, op, class, k, Some(fs)));
+                                let r = env::catch(|| h.one_fault(&hist, op, class, k, Some(fs)));
                                 let r = match r {
                                     Ok(r) => r,
                                     Err(m) => Err(format!("unexpected panic in the harness after the fault: {m}")),
@@ -419,7 +434,7 @@ pub fn enumerate<K: KeyT, V: ValT>(
         "fired_per_class": per,
         "fired_during_in_place_rehash": fs.during_inplace_rehash.load(Ordering::Relaxed),
         "fired_after_new_allocation": fs.during_growth.load(Ordering::Relaxed),
-        "element_flavour": K::NAME,
+        "element_flavour": h.flavour(),
     });
     rep.samples = samples.into_inner().unwrap();
     if rep.samples.is_empty() {
@@ -436,15 +451,15 @@ pub fn enumerate<K: KeyT, V: ValT>(
 }
 
 /// Replay of a recorded fault counterexample.
-pub fn replay_fault<K: KeyT, V: ValT>(h: &MapHarness<K, V>, rp: &Value) -> Result<(), String> {
-    let hist: Vec<MapOp> = serde_json::from_value(rp["history"].clone()).map_err(|e| format!("MACHINERY: bad replay: {e}"))?;
-    let op: MapOp = serde_json::from_value(rp["op"].clone()).map_err(|e| format!("MACHINERY: bad replay: {e}"))?;
+pub fn replay_fault<H: FaultHarness>(h: &H, rp: &Value) -> Result<(), String> {
+    let hist: Vec<H::Op> = serde_json::from_value(rp["history"].clone()).map_err(|e| format!("MACHINERY: bad replay: {e}"))?;
+    let op: H::Op = serde_json::from_value(rp["op"].clone()).map_err(|e| format!("MACHINERY: bad replay: {e}"))?;
     if rp.get("fault").is_none() || rp["fault"].is_null() {
-        return count_run(h, &hist, &op).map(|_| ());
+        return h.count_run(&hist, &op).map(|_| ());
     }
     let class: Class = serde_json::from_value(rp["fault"][0].clone()).map_err(|e| format!("MACHINERY: bad replay: {e}"))?;
     let k: u32 = serde_json::from_value(rp["fault"][1].clone()).map_err(|e| format!("MACHINERY: bad replay: {e}"))?;
-    match env::catch(|| one_fault(h, &hist, &op, class, k, None)) {
+    match env::catch(|| h.one_fault(&hist, &op, class, k, None)) {
         Ok(r) => r.map(|_| ()),
         Err(m) => Err(format!("unexpected panic in the harness after the fault: {m}")),
     }
